@@ -37,11 +37,12 @@ func init() {
 	for i, l := range lens {
 		c09Vals = append(c09Vals, strings.Repeat(string(rune('p'+i)), l))
 	}
+	c09Vals[2] = "\xff" // the second one-byte value is not valid UTF-8: a value is bytes, stored and counted as given
 	register(&mc.Check{
 		ID:    "C09",
 		Level: "model_checking",
 		Rule: "explicit-state BFS to fixpoint on the real cache.Cache (deep-copied exported fields = canonical state), one graph per capacity; " +
-			"ops Add/Update/Get/ReservedSize/Push/Pop/Reset/Last over keys {a,b}, 8 values of lengths {0,1,1',3,4,65535,65536,70000}, limits {0,3,65535}, depth<=4 scopes; " +
+			"ops Add/Update/Get/ReservedSize/Push/Pop/Reset/Last over keys {a,b}, 8 values of lengths {0,1,1' (the byte 0xff),3,4,65535,65536,70000}, limits {0,3,65535}, depth<=4 scopes; " +
 			"a state is non-trivial when it holds at least one symbol; invariants (i)-(vi) of DESIGN C09 evaluated on every transition",
 		Assumptions: []string{"values outside the 8-value alphabet and keys other than a,b are not explored", "scope depth capped at 4"},
 		Run:         c09Run,
